@@ -60,8 +60,15 @@ def section(rep, n, m, mutate=None, what=('post', 'white', 'info', 'psd')):
     S.C.dom += _leading_minors_pos(R) + _psd(P)
     for nm in ('x', 'z', 'H', 'P', 'R'):
         pass
-    x1, P1, inn = KF.correct(x, P, z, H, R)
     meta = {'check': 'correct', 'params': {'n': n, 'm': m}}
+    from ..symlinalg import PoisonUse
+    try:
+        x1, P1, inn = KF.correct(x, P, z, H, R)
+    except (PoisonUse, SystemError) as e:
+        if isinstance(e, SystemError) and 'PoisonUse' not in str(e):
+            raise
+        return [enga.holds('%dx%d: no array is used after it was handed to a library call with overwrite_b=True (%s)' % (n, m, e),
+                           z3.BoolVal(False), 'library contract', meta=meta)]
     obls = []
     Z = lambda name, e, fam: obls.append(enga.zero('%dx%d: %s' % (n, m, name), e, fam, meta=meta))
     unchanged = all(all(a.flat[k] is b.flat[k] for k in range(a.size)) for a, b in zip((x, P, z, H, R), snapshot))
